@@ -98,6 +98,8 @@ def run_case(rec, ptype, cls, data, pattern):
     from engineio import packet
     case = {'type': ptype, 'class': cls, 'data': gen.jsonable(data),
             'pattern': list(pattern)}
+    if packet.Packet.json is KwJson:
+        case['kwjson'] = True
     _state['case'] = case
     rec.evaluations += 1
     # constructor contract
@@ -222,9 +224,31 @@ def ambient(rec, seed, n):
             sim.teardown()
 
 
+class KwJson:
+    """A replacement JSON module of the kind applications install through
+    the json= option: it honours the keyword arguments it is given (here it
+    simply delegates to the standard library), unlike a stub that ignores
+    them."""
+    calls = 0
+
+    @staticmethod
+    def dumps(obj, **kw):
+        import json
+        KwJson.calls += 1
+        return json.dumps(obj, **kw)
+
+    @staticmethod
+    def loads(text, **kw):
+        # (the package's own module: its guard against huge integers is part
+        # of what the reference decoder expects)
+        from engineio import json
+        KwJson.calls += 1
+        return json.loads(text, **kw)
+
+
 def plan(tier, seed):
     n = 16 if tier == 'thorough' else 8
-    per = 180000 if tier == 'thorough' else 15000
+    per = 500000 if tier == 'thorough' else 15000
     return [{'seed': seed, 'shard': i, 'n': per} for i in range(n)]
 
 
@@ -237,6 +261,14 @@ def run_shard(spec):
     names = sorted(classes)
     if spec['shard'] == 1:
         ambient(rec, spec['seed'], 60)
+    # every fourth shard: the packets use a replacement JSON module (the
+    # json= option of the servers / clients sets Packet.json); the wire form
+    # is the same
+    from engineio import packet as _pk
+    old_json = _pk.Packet.json
+    if spec['shard'] % 4 == 2:
+        _pk.Packet.json = KwJson
+        rec.count('replacement_json_module_shards')
     # systematic part: every (type, class, pattern<=4) once per shard 0
     if spec['shard'] == 0:
         for ptype in range(7):
@@ -258,6 +290,9 @@ def run_shard(spec):
                         else '<%d chars>' % len(repr(data)),
                         'pattern': list(pat)})
     _state['rec'] = None
+    if _pk.Packet.json is KwJson:
+        rec.count('replacement_json_module_calls', KwJson.calls)
+    _pk.Packet.json = old_json
     return rec.result()
 
 
@@ -265,6 +300,9 @@ def replay(case):
     install()
     rec = Rec()
     _state['rec'] = rec
+    from engineio import packet as _pk
+    if case.get('kwjson'):
+        _pk.Packet.json = KwJson
     if case.get('ambient'):
         ambient(rec, 1, 8)
         _state['rec'] = None
